@@ -41,13 +41,17 @@ def main():
     assert rc == 0, out
     meta = dict(property=pid, name=name, base=sh(['git', '-C', '/repo', 'rev-parse', 'HEAD'])[1].strip(), ran=[])
     try:
-        demo = (src / 'demo.py').resolve()
+        # demos locate the tree as cwd, as ../.. of their own location, or through MAHOTAS_ROOT: satisfy all three
+        (wt / 'out' / 'mx').mkdir(parents=True, exist_ok=True)
+        demo = wt / 'out' / 'mx' / 'demo.py'
+        shutil.copy(src / 'demo.py', demo)
+        denv = dict(os.environ, MAHOTAS_ROOT=str(wt), PYTHONPATH=str(wt))
         rc, out = build(wt)
         meta['build_unpatched'] = rc
-        rc0, out0 = sh([PY, str(demo)], cwd=wt)
+        rc0, out0 = sh([PY, str(demo)], cwd=wt, env=denv)
         meta['demo_unpatched_exit'] = rc0
         meta['ran'].append(f'demo.py on the unpatched tree: exit {rc0}')
-        rc, out = sh(['git', 'apply', str((src / 'patch.diff').resolve())], cwd=wt)
+        rc, out = sh(['git', 'apply', '--exclude=out/*', str((src / 'patch.diff').resolve())], cwd=wt)
         meta['patch_applies'] = (rc == 0)
         if rc != 0:
             meta['error'] = out[-800:]
@@ -60,7 +64,7 @@ def main():
         meta['suite_passed'] = int(m.group(1)) if m else 0
         meta['suite_failed'] = int(f.group(1)) if f else 0
         meta['ran'].append(f'pinned suite with the patch: {out.strip().splitlines()[-1] if out.strip() else out}')
-        rc1, out1 = sh([PY, str(demo)], cwd=wt)
+        rc1, out1 = sh([PY, str(demo)], cwd=wt, env=denv)
         meta['demo_patched_exit'] = rc1
         meta['demo_patched_output'] = out1[-600:]
         meta['ran'].append(f'demo.py with the patch: exit {rc1}')
